@@ -14,7 +14,10 @@ class RealNS(object):
     Event = staticmethod(_rt.Event)
     Semaphore = staticmethod(_rt.Semaphore)
     SimpleQueue = staticmethod(_rqueue.SimpleQueue)
+    Queue = staticmethod(_rqueue.Queue)
+    Full = _rqueue.Full
     Thread = staticmethod(_rt.Thread)
+    Timer = staticmethod(_rt.Timer)
     sleep = staticmethod(_rtime.sleep)
     Empty = _rqueue.Empty
 
@@ -26,7 +29,10 @@ class SimNS(object):
     Event = core.SimEvent
     Semaphore = core.SimSemaphore
     SimpleQueue = core.SimSimpleQueue
+    Queue = core.SimQueue
+    Full = _rqueue.Full
     Thread = core.SimThread
+    Timer = core.SimTimer
     Empty = _rqueue.Empty
 
     @staticmethod
@@ -180,6 +186,52 @@ def p_queue(T, out):
     out.append(("blocking-get", res))
 
 
+def p_full_queue(T, out):
+    q = T.Queue(2)
+    try:
+        q.get(True, 2 * U)
+        out.append("no Empty?!")
+    except T.Empty:
+        out.append("Empty")
+    q.put(1)
+    q.put(2)
+    try:
+        q.put(3, True, 2 * U)
+        out.append("no Full?!")
+    except T.Full:
+        out.append("Full")
+    res = []
+
+    def consumer():
+        T.sleep(3 * U)
+        for _ in range(3):
+            res.append(q.get())
+            q.task_done()
+    t = T.Thread(target=consumer)
+    t.start()
+    q.put(3)            # blocks until the consumer makes room
+    q.join()
+    t.join()
+    out.append(("bounded", res, q.empty(), q.qsize()))
+
+
+def p_timer(T, out):
+    res = []
+    a = T.Timer(2 * U, res.append, ["a"])
+    b = T.Timer(6 * U, res.append, ["b"])
+    c = T.Timer(4 * U, lambda x=None: res.append(("c", x)), kwargs={"x": 1})
+    for t in (a, b, c):
+        t.daemon = True
+        t.start()
+    T.sleep(3 * U)
+    out.append(("after-3", list(res), a.is_alive()))
+    b.cancel()
+    T.sleep(5 * U)
+    for t in (a, b, c):
+        t.join()
+    out.append(("end", res, b.is_alive()))
+
+
 def p_join(T, out):
     t = T.Thread(target=lambda: T.sleep(6 * U))
     t.daemon = True
@@ -196,7 +248,7 @@ def p_join(T, out):
         out.append("join-before-start-RuntimeError")
 
 
-PROGRAMS = [p_lock_timeout, p_rlock, p_condition, p_event, p_semaphore, p_queue, p_join]
+PROGRAMS = [p_lock_timeout, p_rlock, p_condition, p_event, p_semaphore, p_queue, p_full_queue, p_timer, p_join]
 
 
 def run_real(p):
